@@ -12,7 +12,7 @@ from props.service import proto
 from props.C16 import default_reply
 from props.actor_steps import StepModify, StepExpire, StepAck, StepPull
 
-OUTSIDE = ['push_loop::run (interval, one spawned task per entry), the 5 ms pacing and JoinSet of pull_and_dispatch_messages',
+OUTSIDE = ['more than one iteration of push_loop::run at a time (C14.f decides one iteration from an arbitrary registry / manager state); pages of more than two deliveries in pull_and_dispatch_messages (C14.e)',
            'reqwest/hyper; what "no answer within the deadline" does to the still-pending HTTP future; that pushing stops on deletion']
 ASSUMPTIONS = ['the HTTP exchange is a leaf future with an arbitrary outcome: any status 100..=999 or a transport error']
 
@@ -154,3 +154,176 @@ def obligations(ctx, cfg):
     return [d, pp, sd, Registry(), PushConfigParse(),
             StepModify(ctx, 2, 2, 1, 'modify conserve', 'C14.b-nack-requeues'),
             StepAck(ctx, 2, 2, 1, 'ack-local', 'C14.b-ack-final')]
+
+
+class PullAndDispatch(Obligation):
+    """pull_and_dispatch_messages: one round of the push loop for one subscription"""
+    id = 'C14.e-pull-and-dispatch'
+    tier = 'T3'
+
+    def __init__(self, ctx, k=2):
+        self.k = k
+        self.desc = ('pull_and_dispatch_messages: one pull; every delivery of the pulled page is POSTed exactly once, in page order, and each is '
+                     'acknowledged or nacked according to its own outcome; nothing is dropped; the round ends when all attempts ended')
+        self.bounds = {'page': '<= %d deliveries' % k, 'status': 'all 100..=999 or transport error, per delivery', 'pacing timer': 'fires or not'}
+        self.unroll = k + 4
+        self.max_paths = 20000
+        install_tokens(ctx)
+
+    def body(self, ip, p):
+        ctx = ip.ctx
+        from framework import responder_of
+        sub = p.fresh('sub_tok')
+        toks = [p.fresh('msg%d_tok' % i) for i in range(self.k)]
+        acks = [p.fresh('ack%d' % i) for i in range(self.k)]
+        for i in range(self.k):
+            p.assume(z3.And(acks[i] >= 1, acks[i] < (1 << 63)))
+            for j in range(i + 1, self.k):
+                p.assume(acks[i] != acks[j])
+        n = p.fresh('page_len')
+        p.assume(z3.And(n >= 0, n <= self.k))
+        page = Seq([pulled(ctx, toks[i], acks[i], z3.Int('EPOCH'), z3.IntVal(1)) for i in range(self.k)], n, 'vec')
+        ev = ctx.src.enum_variants('SubscriptionRequest')
+
+        def on_enqueue(ip_, sender, req):
+            if ev[req.discr][0] == 'PullMessages' and sender.kind == 'subscription':
+                tx = responder_of(req)
+                replies = getattr(p, 'replies', {})
+                replies[tx.cid] = ok(page)
+                p.replies = replies
+                return
+            default_reply(ip_, sender, req)
+        ctx.on_enqueue = on_enqueue
+        ep = p.fresh('endpoint')
+        cfgv = mk(ctx, 'PushConfig', 'subscriptions/subscription', endpoint=StrTok(ep), oidc_token=Enum('Option', 0, {}), attributes=Enum('Option', 0, {}))
+        if getattr(self, 'no_timers', False):
+            p.timers_never_fire = True          # quick tier: every attempt ends before its 5 ms pacing timer
+            p.select_in_order = True            # quick tier: select! polls its branches in declaration order
+        fn = ctx.free_fn('pull_and_dispatch_messages')
+        coro = run_to_end(ip.call_fn(fn, [ArcTok(sub, 'Subscription'), cfgv, Opaque('reqwest::Client')]))
+        res, k = run_async(ip, p, coro, budget=getattr(self, 'budget', 1), max_polls=16)
+        return {'sub': sub, 'acks': acks, 'toks': toks, 'n': n, 'log': list(p.log), 'ret': res}
+
+    def post(self, ip, p, res):
+        ctx = ip.ctx
+        log = res['log']
+        n = res['n']
+        ev = ip.src.enum_variants('SubscriptionRequest')
+        sends = [e for e in log if e[0] == 'http.send']
+        enq = [e for e in log if e[0] == 'enqueue' and e[1] == 'subscription']
+        kinds = [ev[e[3].discr][0] for e in enq]
+        out = [Claim('the round ran to its end', res['ret'] is not None),
+               Claim('exactly one pull', kinds.count('PullMessages') == 1 and kinds[0] == 'PullMessages'),
+               Claim('one POST per pulled delivery', n == len(sends))]
+        follow = [e for e, kd in zip(enq, kinds) if kd != 'PullMessages']
+        out.append(Claim('one ack or nack per pulled delivery, nothing else', z3.And(n == len(follow), z3.BoolVal(all(kd in ('PullMessages', 'AcknowledgeMessages', 'ModifyDeadline') for kd in kinds)))))
+        ids = []
+        for e in follow:
+            req = e[3]
+            seq = req.payload[req.discr][0]
+            if ev[req.discr][0] == 'AcknowledgeMessages':
+                ids.append(ack_of(ctx, seq.elems[0]))
+            else:
+                ids.append(ack_of(ctx, fld(ctx, seq.elems[0], 'DeadlineModification', 'ack_id')))
+            out.append(Claim('each follow-up names one delivery', seq.n == 1))
+        for i in range(len(ids)):
+            out.append(Claim('delivery %d of the page is settled exactly once' % i,
+                             z3.Implies(n > i, z3.Sum([z3.If(x == res['acks'][i], 1, 0) for x in ids]) == 1)))
+        out.append(Cover('two deliveries pushed', len(sends) == 2))
+        out.append(Cover('empty page', len(sends) == 0))
+        return out
+
+    def model_info(self, p, m, res):
+        return {'page_len': model_value(m, res['n'])} if res else {}
+
+
+_obligations_c14 = obligations
+
+
+def obligations(ctx, cfg):
+    pd = PullAndDispatch(ctx, 2)
+    pd.budget = 0 if cfg["tier"] == "quick" else 1
+    pd.no_timers = cfg['tier'] == 'quick'
+    if pd.no_timers:
+        pd.bounds = dict(pd.bounds, **{'pacing timer': 'never fires (quick tier)', 'select! start index': '0 (quick tier)'})
+    return _obligations_c14(ctx, cfg) + [pd]
+
+
+class PushLoopIteration(Obligation):
+    """push_loop::run: one iteration of the global loop"""
+    id = 'C14.f-push-loop-iteration'
+    tier = 'T3'
+    desc = ('push_loop::run, one iteration: every registered push subscription that still exists gets exactly one pull-and-dispatch task with its own '
+            'configuration; entries whose subscription is gone are skipped; then the loop sleeps for the interval (it never ends)')
+    bounds = {'registry_entries': 2, 'subscriptions': 2}
+    unroll = 6
+
+    def __init__(self, ctx):
+        install_tokens(ctx)
+
+    def body(self, ip, p):
+        ctx = ip.ctx
+        from props.service import sym_managers
+        ctx.on_enqueue = default_reply
+        p.timers_never_fire = True
+        h = sym_managers(ctx, p, 1, 2)
+        sm = fld(ctx, h['subscriber'], 'SubscriberService', 'subscription_manager')
+        U = ctx.tok_ufs
+        names = [sym_name(ctx, p, 'SubscriptionName', 'r%d' % i) for i in range(2)]
+        p.assume(z3.Not(eq_val(names[0], names[1])))
+        used = [p.fresh('r%d_used' % i, 'bool') for i in range(2)]
+        eps = [p.fresh('endpoint%d' % i) for i in range(2)]
+        cfgs = [mk(ctx, 'PushConfig', 'subscriptions/subscription', endpoint=StrTok(eps[i]), oidc_token=Enum('Option', 0, {}), attributes=Enum('Option', 0, {}))
+                for i in range(2)]
+        pstate = Cell(mk(ctx, 'PushSubscriptionsRegistryState', push_subscriptions=MapM([(used[i], names[i], cfgs[i]) for i in range(2)])), 'pstate')
+        reg = mk(ctx, 'PushSubscriptionsRegistry', state=ArcCell(Cell(LockM('push_registry.state', pstate))))
+        interval = p.fresh('interval_ns')
+        p.assume(z3.And(interval >= 0, interval < (1 << 62)))
+        fn = ctx.free_fn('push_loop::run')
+        coro = run_to_end(ip.call_fn(fn, [S(interval, 'Duration'), sm, reg]))
+        from models_async import poll_future
+        cell = Cell(coro, 'push-loop')
+        r = run_to_end(poll_future(ip, Loc(cell)))
+        return {'parked': r.discr == 1, 'log': list(p.log), 'names': names, 'used': used, 'eps': eps, 'h': h, 'interval': interval}
+
+    def post(self, ip, p, res):
+        ctx = ip.ctx
+        U = ctx.tok_ufs
+        log = res['log']
+        subs = res['h']['subs']
+        name_of = lambda t: mk(ctx, 'SubscriptionName', project_id=StrTok(U['sub_proj'](t)), subscription_id=StrTok(U['sub_id'](t)))
+        exists = [z3.Or([z3.And(u, eq_val(name_of(t), res['names'][i])) for u, t in subs]) for i in range(2)]
+        want = z3.Sum([z3.If(z3.And(res['used'][i], exists[i]), 1, 0) for i in range(2)])
+        spawns = [e for e in log if e[0] == 'spawn']
+        out = [Claim('the loop does not end: it sleeps after the iteration', res['parked']),
+               Claim('one task per registered entry whose subscription exists', want == len(spawns))]
+        sl = [e for e in log if e[0] == 'sleep']
+        out.append(Claim('it sleeps for the configured interval', len(sl) == 1 and z3.simplify(sl[0][1].t == res['interval']) is not None and sl[0][1].t == res['interval']))
+        seen = []
+        for e in spawns:
+            fut = e[1]
+            toks = [v for v in find_values(fut, ArcTok) if v.kind == 'Subscription']
+            eps = [v for v in find_values(fut, StrTok)]
+            ok_ = len(toks) >= 1
+            out.append(Claim('the task holds a subscription', ok_))
+            if not ok_:
+                continue
+            t = toks[0].tok
+            conj = []
+            for i in range(2):
+                conj.append(z3.And(res['used'][i], eq_val(name_of(t), res['names'][i]),
+                                   z3.Or([x.tok == res['eps'][i] for x in eps] or [z3.BoolVal(False)])))
+            out.append(Claim('the task is for a registered entry, with the subscription of that name and that entry\'s endpoint', z3.Or(conj)))
+            seen.append(t)
+        if len(seen) == 2:
+            out.append(Claim('no subscription gets two tasks in one iteration', seen[0] != seen[1]))
+        out.append(Cover('two tasks', len(spawns) == 2))
+        out.append(Cover('an entry is skipped because its subscription is gone', z3.And(res['used'][0], z3.Not(exists[0]))))
+        return out
+
+
+_obligations_c14b = obligations
+
+
+def obligations(ctx, cfg):
+    return _obligations_c14b(ctx, cfg) + [PushLoopIteration(ctx)]
